@@ -284,10 +284,24 @@ class AWorld:
         self.timer_cooldown = True
         self.loop.fire_next_timer()
 
+    @staticmethod
+    def _assigned_while_queued(task):
+        """True / False if the task is parked in AsyncPoolRequest.wait_for_connection and its request has / has not been handed a
+        connection yet (it has not run since); None if it is not waiting in the pool queue."""
+        coro = task.get_coro() if task is not None else None
+        for _ in range(40):
+            if coro is None:
+                return None
+            fr = getattr(coro, "cr_frame", None) or getattr(coro, "gi_frame", None) or getattr(coro, "ag_frame", None)
+            if fr is not None and fr.f_code.co_name == "wait_for_connection" and "self" in fr.f_locals:
+                return getattr(fr.f_locals["self"], "connection", None) is not None
+            coro = getattr(coro, "cr_await", None) or getattr(coro, "gi_yieldfrom", None) or getattr(coro, "ag_await", None)
+        return None
+
     def _cancel(self, c, style):
         self.cancels -= 1
         c["cancel_delivered"] = {"style": style, "where": self.where(c["name"]), "shielded": self._in_shield(c["task"]), "step": self.steps,
-                                 "httpcore_shield": SHIELD_DEPTH.get(c["name"], 0) > 0}
+                                 "httpcore_shield": SHIELD_DEPTH.get(c["name"], 0) > 0, "assigned_while_queued": self._assigned_while_queued(c["task"])}
         self.cancelled_log.append((c["name"], style))
         if style == "scope":
             c["scope"].cancel()
